@@ -155,6 +155,17 @@ def random_matrices():
     import numpy as np
     import lightworks as lw
     n, fails = 0, []
+    # integral seeds of other numeric types give the matrices of the int seed (documented: "converted to an integer")
+    for alt, base in ((2.0, 2), (np.float64(7), 7), (np.int32(5), 5), (np.int64(3), 3), (31.0, 31)):
+        for N in (2, 4):
+            n += 1
+            try:
+                if not np.array_equal(lw.random_unitary(N, seed=alt), lw.random_unitary(N, seed=base)):
+                    fails.append(((repr(alt), N), f"random_unitary(seed={alt!r}) differs from seed={base}"))
+                if not np.array_equal(lw.random_permutation(N, seed=alt), lw.random_permutation(N, seed=base)):
+                    fails.append(((repr(alt), N), f"random_permutation(seed={alt!r}) differs from seed={base}"))
+            except Exception as e:  # noqa: BLE001
+                fails.append(((repr(alt), N), f"seed {alt!r} raised {type(e).__name__}: {e}"))
     for seed in (0, 1, 2, 3, 7, 42, 2 ** 31 - 1):
         for N in (1, 2, 3, 4, 5):
             n += 1
